@@ -84,6 +84,10 @@ def gen_scenario(rng, sid):
     for _ in range(0 if sc["empty_base"] else rng.choice([0, 0, 1, 2])):          # earlier successful appends: part numbers beyond the first write's
         m = rng.choice([1, 2, 4])
         sc["prior"].append({"frame": make_frame(cols, m, rng, kvals, jvals), "offsets": offsets(m, min(m, rng.choice([1, 2])))})
+    if not sc["empty_base"] and rng.random() < 0.4:
+        # an earlier pf.write_row_groups(..., sort_key=..., sort_pnames=False) left the row groups in an order in which the LAST one is
+        # not the highest part number (files are not renamed): the next part number must still be beyond every existing one
+        sc["reorder"] = {"frame": make_frame(cols, 2, rng, kvals, jvals), "key": rng.choice(["part_desc", "rows"])}
     return sc
 
 
@@ -240,6 +244,19 @@ def run_scenario(arg):
                                         "rows_expected": len(want[0][1]), "rows_read": (len(val[0][1]) if st == "ok" and val else None)}
                 return out
             old_vals = want
+        if sc.get("reorder"):
+            from fastparquet import ParquetFile
+            from fastparquet.api import PART_ID
+            pfr_ = ParquetFile(pristine)
+            key = (lambda rg: -int(PART_ID.match(rg.columns[0].file_path)["i"])) if sc["reorder"]["key"] == "part_desc" else (lambda rg: rg.num_rows)
+            pfr_.write_row_groups(to_df(sc["reorder"]["frame"], sc["columns"]), [0], sort_key=key, sort_pnames=False,
+                                  compression=sc["compression"], stats=sc["stats"])
+            nbefore = len(old_vals[0][1])
+            _, old_vals = fresh_read(pristine)          # (the ORDER after a sorted write is C09's subject; here: the rows are all there)
+            if len(old_vals[0][1]) != nbefore + 2:
+                out["setup_failure"] = {"step": 98, "raised": None, "read": "other", "read_detail": None,
+                                        "rows_expected": nbefore + 2, "rows_read": len(old_vals[0][1])}
+                return out
         pf0, _ = fresh_read(pristine)
         refs = dsfs.refs_of(pf0)
         do_write(alone, sc, sc["frame1"], sc["offsets1"], False)
@@ -494,6 +511,7 @@ def run(ctx):
             continue
         ctx.count("addressing", "%s/%s" % (sc.get("addr", "abs"), sc.get("opener", "callable")))
         ctx.count("base_dataset", sc.get("empty_base") or "non-empty")
+        ctx.count("row_groups_reordered_by_an_earlier_sorted_write", (sc.get("reorder") or {}).get("key", "no"))
         ctx.count("partition_columns", len(sc["partition_on"]))
         ctx.count("new_row_groups", sc["new_parts"])
         ctx.count("prior_appends", len(sc["prior"]))
